@@ -30,7 +30,7 @@ def sel(arr, i):
 
 class AsmPasses:
     name = "asm_passes"
-    props = ("C03", "C13", "C02")
+    props = ("C03", "C13", "C02", "C01")
     max_paths = 600
 
     def cells(self, tier):
@@ -99,6 +99,10 @@ class AsmPasses:
             fill = [" RMB %d\n" % nfill] if h.get("probe_fill", "rmb") == "rmb" else [" STA 20,X\n"] * nfill
             lines = ([src] + fill + ["T NOP\n"]) if direction == "fwd" else (["T NOP\n"] + fill + [src])
             si, ti = (0, len(lines) - 1) if direction == "fwd" else (len(lines) - 1, 0)
+            if h.get("probe_fill") == "pcrfar":
+                kk = h.get("probe_k", 3)
+                lines = [src] + [" LEAY FAR,PCR\n"] * kk + [" RMB %d\n" % nfill, "T NOP\n", " RMB 200\n", "FAR NOP\n"]
+                si, ti = 0, kk + 2
             run = assemble(env, lines, bytes_of=[si])
             if run.status != "ok":
                 env.ensure(KEY + "probe:terminates-and-accepts", run.status == "diag", ("C13", "C03"),
@@ -110,7 +114,7 @@ class AsmPasses:
                 (st.address + len(st.bytes) + d.offset - run.stmts[ti].address) % 65536 == 0
             clause = (KEY + "determine_pcr_relative_sizes::post:fits8-%s" % ("forward" if direction == "fwd" else "backward")) \
                 if k == "sizes" else KEY + "probe:pcr-target"
-            env.ensure(clause, ok, ("C03",), lambda: "probe:%s:%s:%s:n=%d:%s" % (m, direction, h.get("probe_fill", "rmb"), nfill, d.kind if d.ok else "undecodable"))
+            env.ensure(clause, ok, ("C03", "C01"), lambda: "probe:%s:%s:%s%s:n=%d:%s" % (m, direction, h.get("probe_fill", "rmb"), h.get("probe_k", ""), nfill, d.kind if d.ok else "undecodable"))
         else:
             env.ensure(KEY + "native-replay-not-implemented", True, ())
 
@@ -123,6 +127,12 @@ class AsmPasses:
                     if cell["k"] == "pcr" and direction == "bwd" and 120 <= nfill <= 127:
                         continue      # the known backward boundary finding is the sizes/bwd cell's
                     yield {"probe_n": nfill, "probe_dir": direction, "probe_fill": "rmb"}
+                if cell["k"] == "sizes" and direction == "fwd":
+                    # other forward PCR references inside the span, still unsized when this one is sized and 16-bit in the end:
+                    # the optimistic and the pessimistic size estimate of the span differ by one byte per reference
+                    for cnt in (1, 3, 5):
+                        for nfill in range(127 - 4 * cnt - 1, 127 - 3 * cnt + 2):
+                            yield {"probe_n": nfill, "probe_dir": direction, "probe_fill": "pcrfar", "probe_k": cnt}
                 if cell["k"] == "sizes":
                     # fillers whose size exceeds their max_size (constant-offset indexed statements: 3 bytes each)
                     for cnt in (10, 30, 41, 42, 43, 50, 60, 100):
@@ -271,7 +281,7 @@ class AsmPasses:
         val = sym.parse_int(txt, 16)
         w = 256 if hint == 2 else 65536
         env.ensure(key + "::post:pcr-field-width", len(txt) == hint, ("C03", "C02"), internal="contract over an abstract statement list")
-        env.ensure(key + "::post:pcr-target", (val - jump) % w == 0, ("C03",), internal="contract over an abstract statement list")
+        env.ensure(key + "::post:pcr-target", (val - jump) % w == 0, ("C03", "C01"), internal="contract over an abstract statement list")
 
     # ------------------------------------------------------------------ determine_pcr_relative_sizes
     def s_sizes(self, env, cell):
@@ -358,13 +368,13 @@ class AsmPasses:
             else:
                 # every statement between is final: its final size is its size
                 p.assume(dfin == sel(PSn, target) - sel(PSn, this + 1))
-            env.ensure(key + "::post:fits8-forward", dfin <= 127, ("C03",), internal=INT)
+            env.ensure(key + "::post:fits8-forward", dfin <= 127, ("C03", "C01"), internal=INT)
         else:
             # backward: the statements between target and this precede this one in the sweep of translate_statements and were
             # sized before it, so they are final
             between = sel(PSn, this) - sel(PSn, target)
             jump = -(between + size1)
-            env.ensure(key + "::post:fits8-backward", jump >= -128, ("C03",), internal=INT)
+            env.ensure(key + "::post:fits8-backward", jump >= -128, ("C03", "C01"), internal=INT)
 
     # ------------------------------------------------------------------ the lemma used above, by induction on b
     def s_pslemma(self, env, cell):
